@@ -594,7 +594,7 @@ def _is_success_effect(n):
 
 
 def rule_W4(ctx):
-    ctx.begin("W4", floor=10, what="error-propagation sites on the save path")
+    ctx.begin("W4", floor=8, what="error-propagation sites on the save path")
     prog = ctx.prog
     wr = prog.func("lbuf_wr")
     for c in wr.calls("write_fully"):
@@ -864,7 +864,7 @@ def rule_W5(ctx):
                 ctx.violation(g.name, "path/timestamp pairing",
                               "lbuf_save(path=%s, ts=%s): the timestamp does not belong to "
                               "that path %s" % (key(a_path), key(a_ts), why), g.loc(c))
-    if n_callers < 3:
+    if n_callers < 2:
         ctx.broken("only %d callers of lbuf_save" % n_callers)
 
 
@@ -1034,26 +1034,63 @@ def _first_ev(f, n):
     return n["id"]
 
 
+def read_sites(prog):
+    """Where lbuf_rd reads: (reader function, read call, result variable there, top function,
+    result variable in the top function, node standing for the result in the top function).
+    The read loop may sit in lbuf_rd itself or in a helper of lbuf.c that returns the result of
+    its last read()."""
+    top = prog.func("lbuf_rd", file="lbuf.c")
+
+    def res_of(f, call):
+        par = f.nodes.get(f.parent.get(call["id"]))
+        while par and par["k"] == "cast":
+            par = f.nodes.get(f.parent.get(par["id"]))
+        if par and par["k"] == "bin" and par["op"] == "=" and par["l"]["k"] == "ref":
+            return par["l"]["name"], par
+        if par and par["k"] == "var":
+            return par["name"], par
+        return None, None
+    reads = list(top.calls("read"))
+    if reads:
+        out = []
+        for rd in reads:
+            r, node = res_of(top, rd)
+            out.append((top, rd, r, top, r, rd))
+        return out
+    out = []
+    for c in top.calls():
+        g = prog.resolve(top, c["fn"]) if c.get("fn") else None
+        if g is None or g.file != top.file or not list(g.calls("read")):
+            continue
+        r_top, node = res_of(top, c)
+        for rd in g.calls("read"):
+            r, n_ = res_of(g, rd)
+            # the helper hands the result of read() back
+            rets = [x for x in g.cfg.return_nodes()]
+            if r is None or not rets or not all(x.get("e") is not None and key(strip_casts(x["e"])) == r for x in rets):
+                out.append((g, rd, r, top, None, c))
+            else:
+                out.append((g, rd, r, top, r_top, c))
+    return out
+
+
+
 def rule_W7(ctx):
     ctx.begin("W7", floor=4, what="read loop obligations")
     prog = ctx.prog
-    f = prog.func("lbuf_rd")
-    cfg = f.cfg
-    reads = list(f.calls("read"))
-    if not reads:
-        raise AnalysisBroken("lbuf_rd does not call read")
-    for rd in reads:
+    sites = read_sites(prog)
+    if not sites:
+        raise AnalysisBroken("lbuf_rd does not call read (nor a helper of lbuf.c that does)")
+    for f, rd, res, top, res_top, top_node in sites:
+        cfg = f.cfg
         buf = key(strip_casts(rd["args"][1]))
-        par = f.nodes.get(f.parent.get(rd["id"]))
-        while par and par["k"] == "cast":
-            par = f.nodes.get(f.parent.get(par["id"]))
-        res = None
-        if par and par["k"] == "bin" and par["op"] == "=" and par["l"]["k"] == "ref":
-            res = par["l"]["name"]
-        elif par and par["k"] == "var":
-            res = par["name"]
         if res is None:
-            ctx.violation("lbuf_rd", "read result kept", "result of read() not kept", f.loc(rd))
+            ctx.violation(f.name, "read result kept", "result of read() not kept", f.loc(rd))
+            continue
+        if res_top is None:
+            ctx.inconclusive(top.name, "read result kept",
+                             "%s() does not hand the result of its last read() back as its return value" % f.name,
+                             top.loc(top_node))
             continue
         S = _array_size(f, buf)
         if S is not None and (cval(rd["args"][2]) or 0) > S:
@@ -1082,26 +1119,26 @@ def rule_W7(ctx):
         else:
             ctx.violation("lbuf_rd", "chunk append", "chunks are not appended as sbuf_mem(sb, %s, %s)"
                           % (buf, res), f.loc(rd))
-        for e in f.calls("lbuf_edit"):
+        for e in top.calls("lbuf_edit"):
             eof = False
-            for cc, t in _facts(f, e):
-                if mentions(cc, res):
-                    tz = _eval(cc, -1, res, 0)
-                    tn = _eval(cc, -1, res, -1)
+            for cc, t in _facts(top, e):
+                if mentions(cc, res_top):
+                    tz = _eval(cc, top_node["id"], res_top, 0)
+                    tn = _eval(cc, top_node["id"], res_top, -1)
                     if tz is not None and bool(tz) == t and bool(tn) != t:
                         eof = True
             if eof:
-                ctx.ok("lbuf_rd", "splice only at end of file", loc=f.loc(e))
+                ctx.ok("lbuf_rd", "splice only at end of file", loc=top.loc(e))
             else:
                 ctx.violation("lbuf_rd", "splice only at end of file",
                               "lbuf_edit is not control-dependent on %s == 0: a read error "
-                              "would splice a truncated file" % res, f.loc(e))
+                              "would splice a truncated file" % res_top, top.loc(e))
             # the spliced text is the accumulated buffer
             a = strip_casts(e["args"][1])
             if not (is_call(a, ("sbuf_buf", "sbuf_done"))):
                 ctx.violation("lbuf_rd", "splice the accumulated text",
-                              "lbuf_edit is given %s" % key(a), f.loc(e))
-        for r in cfg.return_nodes():
+                              "lbuf_edit is given %s" % key(a), top.loc(e))
+        for r in top.cfg.return_nodes():
             e = r.get("e")
             # a return may sit under a test of the read result: judge it for the result
             # values (error -1, end of file 0) under which it can be reached
@@ -1109,28 +1146,28 @@ def rule_W7(ctx):
             unknown = False
             for v, want_fail in ((-1, True), (0, False)):
                 reach = True
-                for cc, t in _facts(f, r):
-                    if mentions(cc, res):
-                        tv = _eval(cc, rd["id"], res, v)
+                for cc, t in _facts(top, r):
+                    if mentions(cc, res_top):
+                        tv = _eval(cc, top_node["id"], res_top, v)
                         if tv is None:
                             unknown = True
                         elif bool(tv) != t:
                             reach = False
                 if not reach:
                     continue
-                rv = _eval(e, -1, res, v)
+                rv = _eval(e, top_node["id"], res_top, v)
                 if rv is None:
                     unknown = True
                 elif bool(rv) != want_fail:
                     bad = v
             if bad is not None:
                 ctx.violation("lbuf_rd", "read error reported", "return %s when %s is %d" % (
-                    key(e), res, bad), f.loc(r))
+                    key(e), res_top, bad), top.loc(r))
             elif unknown:
                 ctx.inconclusive("lbuf_rd", "read error reported",
-                                 "return %s not understood" % key(e), f.loc(r))
+                                 "return %s not understood" % key(e), top.loc(r))
             else:
-                ctx.ok("lbuf_rd", "returns failure exactly on a read error", loc=f.loc(r))
+                ctx.ok("lbuf_rd", "returns failure exactly on a read error", loc=top.loc(r))
     # callers
     n = 0
     for g in prog.funcs.values():
